@@ -894,7 +894,7 @@ func init() {
 			"on sparse-id genesis families 'next unused id' is read as coin count + 1 (what a contiguous chain gives); the contiguous filler family is the authoritative one",
 			"only INCREASES of pool-token volume are judged (burning one's own pool tokens is not excluded by the statement)",
 		},
-		Quick: 42, Thorough: 900, MinEval: 6000, MinDistinct: 80,
+		Quick: 42, Thorough: 420, MinEval: 6000, MinDistinct: 80,
 		Run: func(ctx *WorkCtx, idx int) {
 			r := Rng(ctx.Seed, "C22", idx)
 			blocks := 60
